@@ -28,4 +28,32 @@ PROPS = {
         "trusted_base": [TB_URL, TB_HTTP, "base64 crate (BASE64_STANDARD) modelled in Model/Base64.lean, compared after decoding"],
         "assumptions": ["server-side recovery = strip 'Basic ', base64-decode, split at first ':', form-decode both halves"],
     },
+    "C11": {
+        "extract": True,
+        "lean": ["OAuth2Model.Props.C11", "OAuth2Model.Props.GenObligations"],
+        "theorems": ["C11.C11_step", "C11.C11_frame", "C11.C11_write", "C11.C11_last_write", "C11.lastWrittenOr_eq",
+                     "C11.C11_id_fixed", "C11.C11_inv", "C11.C11_run_spec", "C11.C11_gate", "C11.C11_only_listed",
+                     "C11.C11_maybe", "C11.C11_maybe_getter", "C11.C11_endpoint_of_flow", "C11.C11_no_panic",
+                     "C11.C11_names", "C11.C11_flow_fields", "C11.C11_plain_getters", "C11.C11_method_set",
+                     "GenObl.tables_basic", "GenObl.tables_basic_codes", "GenObl.tables_device",
+                     "GenObl.tables_device_codes", "GenObl.tables_revocation", "GenObl.tables_token_type",
+                     "GenObl.tables_one_to_one", "GenObl.consts_device_poll", "GenObl.consts_deadline",
+                     "GenObl.consts_pkce", "GenObl.consts_random_bytes", "GenObl.consts_content_types",
+                     "GenObl.consts_revocation_https", "GenObl.consts_status_ok", "GenObl.inv_secret_types",
+                     "GenObl.inv_secret_macro", "GenObl.inv_url_types", "GenObl.inv_plain_types",
+                     "GenObl.inv_handwritten_fmt", "GenObl.inv_request_pairs", "GenObl.inv_client_plain_data",
+                     "GenObl.inv_random_len"],
+        "ops": ["cfg"],
+        "signatures": ["C11:"],
+        "n": {"quick": 4000, "thorough": 200000},
+        "exhaustive_note": "thorough tier enumerates every op sequence of length <= 3 over the 19 operations (7240) plus 486 directed sequences reaching all 243 endpoint-state vectors; the quick tier always starts with all sequences of length <= 2 and the directed ones",
+        "rule": "cases = op sequences with distinct values per op; the first 867 of every run are the bounded-exhaustive core (all sequences of length <= 2, directed sequences for all 3^5 typestate vectors with URL present / absent), the rest are random sequences of length 0..8 from one SplitMix64 state; distinct = distinct canonical op lines on which the generated model and the implementation agreed; tags = typestate vector x min(length,4)",
+        "trusted_base": ["extract/ (syn 2.x translator, ~1500 lines): Generated/*.lean say what src/*.rs says, for the grammar listed at the top of extract/src/{client,tables,consts,inventory}.rs; anything else is a translation failure",
+                         "lean/OAuth2Model/Model/ClientSem.lean: meaning of the gate table (method resolution over specialised impl blocks, expect / ok_or / as_ref)",
+                         "rustc's typestate resolution (which impl block a call resolves to) is exercised at run time through harness/src/ops/cfg.rs over all 3^5 client types; rejection of calls on unset endpoints is the compile-probe check's part",
+                         "what the *_impl request constructors do with id / secret / auth type / redirect is C01/C02/C03's model; here it is observed at run time only"],
+        "assumptions": ["the 19 operations are the public setters of Client as of the pinned tree; a new setter needs a line in the specification (Props/C11.lean `endpointWrite`/`writes`)",
+                        "URL values in cfg cases are already in the url crate's canonical form, so text equality is URL equality"],
+        "explanation": "Lean theorems over definitions regenerated from src/client.rs on every run (frame/write per setter, last-write-wins for every op sequence, Set => URL present, gate table = specification) plus exhaustive run-time correspondence of the same generated model with the real Client across all 243 typestates, plus an independent Rust-side oracle",
+    },
 }
